@@ -39,6 +39,7 @@ def irrelevant_variants(su, rng):
     if len(items) >= 2:
         v = su.copy(); v.query = "&amp;".join(items); out.append(("&amp; for &", v.render()))
         v = su.copy(); v.query = items[0] + "&amp%3B" + "&".join(items[1:]); out.append(("&amp%3B for &", v.render()))
+        v = su.copy(); v.query = items[0] + "&%61m%50;" + "&".join(items[1:]); out.append(("&amp; with escaped letters for &", v.render()))
     return out
 
 
@@ -88,7 +89,7 @@ def composed_variant(su, rng):
     if "hostcase" in post:
         v.host = v.host.upper()
     if "amp_sep" in post and v.query and "&" in v.query:
-        v.query = v.query.replace("&", rng.choice(["&amp;", "&amp%3B"])); names.append("&amp;")
+        v.query = v.query.replace("&", rng.choice(["&amp;", "&amp%3B", "&%61mp;", "&A%6dP%3b"])); names.append("&amp;")
     r = v.render()
     if "hex" in post:
         r = re.sub(r"%[0-9A-Fa-f]{2}", lambda m: m.group(0).lower(), r); names.append("lower-case hex")
